@@ -520,6 +520,41 @@ func runC09(c *Ctx) {
 					}
 				}
 			}
+			if !guardedByNil {
+				// early-return shape: no edge on which a pooled connection's reservation is non-nil leads to the dial
+				reaches, nTests := false, 0
+				eachInstr(g, func(x ssa.Instruction) {
+					iff, ok := x.(*ssa.If)
+					if !ok {
+						return
+					}
+					for _, truth := range []bool{true, false} {
+						gd := guard{Cond: iff.Cond, Truth: truth, If: iff}
+						cm, ok := gd.asCmp()
+						if !ok || cm.Op != token.NEQ || !isNilConst(cm.Y) {
+							continue
+						}
+						ex, isEx := cm.X.(*ssa.Extract)
+						if !isEx || ex.Index != 0 {
+							continue
+						}
+						cl, isC := ex.Tuple.(*ssa.Call)
+						if !isC || !strings.HasSuffix(callName(cl), ".ReserveNewQuery") || !instrDominates(cl, in) && cl.Block() == in.Block() {
+							continue
+						}
+						if cl.Block() == in.Block() {
+							continue // the reservation on the connection that was just dialled
+						}
+						nTests++
+						if _, r := reachFromBlock(succOnTruth(iff, truth), func(y ssa.Instruction) bool { return y == in }, nil); r {
+							reaches = true
+						}
+					}
+				})
+				if nTests > 0 && !reaches {
+					guardedByNil = true
+				}
+			}
 			c.check(guardedByNil, "dial-iff-none@"+funcName(g), instrPos(in), "a new connection is created only when no existing one reserved",
 				"a new connection is created although an existing one may have admitted the query")
 			// and it is registered
